@@ -1083,11 +1083,9 @@ class PositionDeltaArray(PosBase):
         """Create a new position delta of the same type as other but with NaN values
         """
         ref_pos = _SYSTEMS[other.ref_pos.cls_name][other.ref_pos.system](
-            np.full(other.shape, fill_value=np.nan), ellipsoid=other.ellipsoid
+            np.full(other.shape, fill_value=np.nan), ellipsoid=other.ref_pos.ellipsoid
         )
-        return _SYSTEMS[cls.cls_name][other.system](
-            np.full(other.shape, fill_value=np.nan), ellipsoid=ellipsoid, ref_pos=ref_pos
-        )
+        return _SYSTEMS[cls.cls_name][other.system](np.full(other.shape, fill_value=np.nan), ref_pos=ref_pos)
 
     @classmethod
     def from_position_delta(cls, val: np.ndarray, other: "PositionDeltaArray") -> "PositionDeltaArray":
